@@ -162,3 +162,11 @@ impl PubWriter {
             db.local_topic_writers@.contains_key(guid) && data == db.local_topic_writers@[guid],   // [announce.sedp.write]
     { unimplemented!() }
 }
+
+// std: Option::filter - "Returns None if the option is None, otherwise calls predicate with the wrapped value and returns
+// Some(t) if predicate returns true, None if it returns false" (kept so that a change which FILTERS an announced policy
+// is judged on its text instead of degrading the function; seed C10g)
+pub assume_specification<T: core::marker::Destruct, P: FnOnce(&T) -> bool + core::marker::Destruct>[ Option::<T>::filter ](o: Option<T>, p: P) -> (r: Option<T>)
+    requires o matches Some(v) ==> p.requires((&v,)),
+    ensures o is None ==> r is None,
+            o matches Some(v) ==> (r is None || r == Some(v)) && (r is Some ==> p.ensures((&v,), true)) && (r is None ==> p.ensures((&v,), false));
